@@ -59,3 +59,46 @@ def witness_groups(ck, kind="part"):
             g["calls"] = [call(**w["call"])]
             gs.append(g)
     return gs
+
+
+# ------------------------------------------------------------------ packing / covering
+PACKERS = ["ff", "ffd", "bf", "bfd", "bc"]
+FIT4 = ["ff", "ffd", "bf", "bfd"]
+COVERS = ["dec", "tt", "tq"]
+
+
+def pcall(alg, fmt="dict", extra=True):
+    return {"alg": alg, "fmt": fmt, "extra": extra}
+
+
+def key_pack(t):
+    return ("Q", tuple(t["vals"]), t["C"], t.get("den", 1))
+
+
+def ctx_pack(fl):
+    t = fl["trace"]
+    r = t["res"][fl["e"] - 1]
+    return {"alg": r["alg"], "C": t["C"], "den": t.get("den", 1), "vals": t["vals"], "fmt": r["fmt"], "out": r["out"], "lists": r.get("lists"),
+            "sums": r.get("sums"), "bc": r.get("bc"), "bcout": r.get("bcout"), "soout": r.get("soout")}
+
+
+def run_pack_groups(ck, groups, active, what, chunk=6000, nontrivial=lambda t: len(t["vals"]) >= 2):
+    from .. import core, drive
+    traces = core.pmap(drive.run_pack_group, groups)
+    for t in traces:
+        ck.evaluations += len(t["res"])
+        for r in t["res"]:
+            ck.cat("alg:" + r["alg"])
+            if r["out"] == "timeout":
+                ck.timeouts += 1
+        t["res"] = [r for r in t["res"] if r["out"] != "timeout"]
+        if nontrivial(t):
+            ck.nontrivial.add(key_pack(t))
+    traces = [t for t in traces if t["res"]]
+    if traces:
+        m = traces[len(traces) // 2]
+        ck.sample({"vals": m["vals"], "C": m["C"], "den": m["den"], "first_events": m["res"][:2]})
+        ck.sample({"vals": traces[-1]["vals"], "C": traces[-1]["C"], "den": traces[-1]["den"], "first_events": traces[-1]["res"][:1]})
+    fails = ck.judge("JPack", traces, active, what=what, chunk=chunk)
+    ck.classify(fails, ctx_pack)
+    return traces
